@@ -10,10 +10,19 @@ use std::sync::atomic::{AtomicUsize, Ordering};
 use std::sync::Mutex;
 use vh::*;
 
-const APIDS: [&str; 4] = ["APP1", "AP2", "A3", "B"];
-const CTIDS: [&str; 4] = ["CTX1", "CT2", "C3", "T"];
+const APIDS: [&str; 7] = ["APP1", "AP2", "B", "TC", "TC1", "ATC", "XTCY"];
+const CTIDS: [&str; 7] = ["CTX1", "CT2", "T", "TC", "TC1", "ATC", "XTCY"];
+/// ECU ids of the patterns A / B: a 3-character id and its extension
+fn ecu_name(e: u8) -> &'static str {
+    if e == b'A' {
+        "ECU"
+    } else {
+        "ECUB"
+    }
+}
 // pairs named by the filters of the option space: make sure they occur in every input set
-const HOT: [(&str, &str); 6] = [("APP1", "C3"), ("AP2", "T"), ("B", "CTX1"), ("A3", "CT2"), ("APP1", "CTX1"), ("B", "T")];
+const HOT: [(&str, &str); 12] = [("APP1", "TC"), ("AP2", "T"), ("B", "CTX1"), ("TC", "CT2"), ("APP1", "CTX1"), ("B", "T"),
+    ("TC1", "T"), ("ATC", "CT2"), ("XTCY", "TC1"), ("TC", "TC"), ("TC1", "ATC"), ("ATC", "XTCY")];
 const MAX_IDX: u64 = 2147483647;
 
 struct GenMsg {
@@ -78,7 +87,7 @@ fn gen_set(dir: &str, shape: &Value, rng: &mut Rng) -> (Vec<String>, Vec<GenMsg>
             let pc = pats[f].as_bytes();
             let e = pc[rng.below(pc.len() as u64) as usize]; // b'A' | b'B'
             let ei = (e - b'A') as usize;
-            let ecu = format!("ECU{}", e as char);
+            let ecu = ecu_name(e).to_string();
             let boot_slot = *cuts[ei].iter().filter(|s| **s <= t).last().unwrap();
             let boot_start = rx(boot_slot) - 1_000_000;
             let mut x = (rx(t) - boot_start) / 100_000; // timestamp in 0.1 s
@@ -135,7 +144,7 @@ fn gen_set(dir: &str, shape: &Value, rng: &mut Rng) -> (Vec<String>, Vec<GenMsg>
                     continue;
                 }
                 let e = pats[f].as_bytes()[0];
-                let ecu = format!("ECU{}", e as char);
+                let ecu = ecu_name(e).to_string();
                 let ts = 6900 + f as u32; // unique key: low digits 900.. are not used by the slots
                 let text = format!("tied first msg of file {}", f);
                 let mut pl = Vec::new();
@@ -162,7 +171,7 @@ fn gen_set(dir: &str, shape: &Value, rng: &mut Rng) -> (Vec<String>, Vec<GenMsg>
         // every file non-empty, every "AB" file really contains both ECUs (else its stream would be grouped differently)
         let ok = (0..nf).all(|f| {
             !per_file[f].is_empty()
-                && pats[f].bytes().all(|e| per_file[f].iter().any(|(_, g)| g.ecu.as_bytes()[3] == e))
+                && pats[f].bytes().all(|e| per_file[f].iter().any(|(_, g)| g.ecu == ecu_name(e)))
         });
         if !ok {
             continue;
@@ -288,7 +297,34 @@ fn reread(path: &str) -> Option<Vec<Value>> {
     Some(it.map(|m| json!({"ev": "filemsg", "key": m.timestamp_dms, "hash": hash31(&msg_bytes(&m))})).collect())
 }
 
-fn render_filter_file(path: &str, fmt: &str, ff: &[Value]) {
+/// a padding entry: matches no message (the id universe has no id starting with Z / Y)
+fn pad_filter(k: usize) -> Value {
+    const B36: &[u8] = b"0123456789ABCDEFGHIJKLMNOPQRSTUVWXYZ";
+    let t = |p: char| format!("{}{}{}{}", p, B36[(k / 1296) % 36] as char, B36[(k / 36) % 36] as char, B36[k % 36] as char);
+    json!({"kind":"pos","en":true,"ecu":"","apid":t('Z'),"ctid":t('Y')})
+}
+
+/// the entries of the file in file order: the listed filters among n - len further ones, at the end or with the first
+/// listed one at the entry straddling the given byte offset (10-byte records of the dlt-convert format)
+fn file_entries(ff: &[Value], n: usize, at: &str) -> Vec<Value> {
+    let npad = n.saturating_sub(ff.len());
+    let mut v: Vec<Value> = (0..npad).map(pad_filter).collect();
+    let pos = match at {
+        "b8192" => 8192 / 10,
+        "b16384" => 16384 / 10,
+        "b65536" => 65536 / 10,
+        _ => npad,
+    }
+    .min(npad);
+    // first listed filter at `pos`, the others at the very end
+    if let Some(first) = ff.first() {
+        v.insert(pos, first.clone());
+        v.extend(ff.iter().skip(1).cloned());
+    }
+    v
+}
+
+fn render_filter_file(path: &str, fmt: &str, ff: &[Value], eol: &str) {
     let mut s = String::new();
     if fmt == "dlf" {
         s.push_str("<?xml version=\"1.0\" encoding=\"UTF-8\"?>\n<dltfilter>\n");
@@ -315,8 +351,15 @@ fn render_filter_file(path: &str, fmt: &str, ff: &[Value]) {
             ));
         }
         s.push_str("</dltfilter>\n");
+        match eol {
+            "crlf" => s = s.replace('\n', "\r\n"),
+            "nonl" => {
+                s.pop();
+            }
+            _ => {}
+        }
     } else {
-        // dlt-convert format: "APID CTID " per filter, ids filled with '-' to 4 characters
+        // dlt-convert format: "APID CTID " per filter, ids filled with '-' to 4 characters; fixed 10-byte records, no lines
         for f in ff {
             for key in ["apid", "ctid"] {
                 let mut id = f[key].as_str().unwrap().to_string();
@@ -326,6 +369,9 @@ fn render_filter_file(path: &str, fmt: &str, ff: &[Value]) {
                 s.push_str(&id);
                 s.push(' ');
             }
+        }
+        if eol == "trail" {
+            s.push_str("   "); // a trailing partial record
         }
     }
     std::fs::write(path, s).unwrap();
@@ -421,7 +467,11 @@ fn main() {
         // ---------------- reference runs (identity order of the file arguments, no selection)
         let gen_json: Vec<Value> = gen
             .iter()
-            .map(|g| json!({"key": g.key, "hash": g.hash, "ecu": g.ecu, "apid": g.apid, "ctid": g.ctid, "ext": g.ext}))
+            .map(|g| {
+                let chars = |x: &str| x.chars().map(|c| c.to_string()).collect::<Vec<String>>();
+                json!({"key": g.key, "hash": g.hash, "ecu": g.ecu, "apid": g.apid, "ctid": g.ctid, "ext": g.ext,
+                       "ecuc": chars(&g.ecu), "apidc": chars(&g.apid), "ctidc": chars(&g.ctid)})
+            })
             .collect();
         ref_evs.push(json!({"ev":"reset","case":base_case,"hdr":{"kind":"ref","set":set,"shape":entry["shape"],"files":files,"gen":gen_json}}));
         let mut a_args = vec!["-a".to_string()];
@@ -518,9 +568,11 @@ fn main() {
                 let ex: Vec<String> = eac
                     .iter()
                     .map(|f| {
-                        format!("{}:{}:{}", f["ecu"].as_str().unwrap(), f["apid"].as_str().unwrap(), f["ctid"].as_str().unwrap())
-                            .trim_end_matches(':')
-                            .to_string()
+                        let part = |k: &str| {
+                            let rx = f["rx"][k]["s"].as_str().unwrap_or("");
+                            if rx.is_empty() { f[k].as_str().unwrap().to_string() } else { rx.to_string() }
+                        };
+                        format!("{}:{}:{}", part("ecu"), part("apid"), part("ctid")).trim_end_matches(':').to_string()
                     })
                     .collect();
                 args.push(format!("--eac={}", ex.join(",")));
@@ -528,9 +580,13 @@ fn main() {
             let ffmt = o["f"]["fmt"].as_str().unwrap();
             let ff = &reorder(o["f"]["ff"].as_array().unwrap());
             let mut ffile = None;
+            let mut npad = 0usize;
             if ffmt != "none" {
                 let p = format!("{}/ff-{}.{}", dir, j, if ffmt == "dlf" { "dlf" } else { "txt" });
-                render_filter_file(&p, ffmt, ff);
+                let n = o["f"]["n"].as_u64().unwrap_or(0) as usize;
+                let entries = file_entries(ff, n, o["f"]["at"].as_str().unwrap_or("end"));
+                npad = entries.len() - ff.len();
+                render_filter_file(&p, ffmt, &entries, o["f"]["eol"].as_str().unwrap_or("lf"));
                 args.push("-f".into());
                 args.push(p.clone());
                 ffile = Some(p);
@@ -552,8 +608,15 @@ fn main() {
             if dup_arg {
                 args.push(files[0].clone()); // the same file named twice: de-duplicated by the tool
             }
+            // the npad further entries of the filter file are represented by one filter of their kind (positive, ids no message has)
+            let mut ff_hdr: Vec<Value> = ff.clone();
+            if npad > 0 {
+                let norx = json!({"t":"none","w":[],"v":[],"s":""});
+                ff_hdr.push(json!({"kind":"pos","en":true,"ecu":"","apid":"ZZZZ","ctid":"YYYY","rx":{"ecu":norx,"apid":norx,"ctid":norx}}));
+            }
+            let ff = &ff_hdr;
             let hdr = json!({"kind":"sel","set":set,"perm":perm,"argv":args,
-                "opts":{"winc":o["winc"],"lcsc":o["lcsc"],"ord":o["ord"].as_str().unwrap_or("asc"),"b":b,"e":e,"lcs":lcs,"eac":eac,"ff":ff,"ffmt":ffmt,"sort":sort,"style":style,"ofile":o["ofile"]}});
+                "opts":{"winc":o["winc"],"lcsc":o["lcsc"],"ord":o["ord"].as_str().unwrap_or("asc"),"b":b,"e":e,"lcs":lcs,"eac":eac,"ff":ff,"npad":npad,"fn":o["f"]["n"].as_u64().unwrap_or(0),"fat":o["f"]["at"].as_str().unwrap_or("end"),"feol":o["f"]["eol"].as_str().unwrap_or("lf"),"ffmt":ffmt,"sort":sort,"style":style,"ofile":o["ofile"]}});
             jobs.push(Job { case, hdr, args, ofile, ffile });
         }
         let next = AtomicUsize::new(0);
